@@ -7,11 +7,11 @@ from . import core
 
 def main():
     core.run_translators()
-    ok, log, _ = core.lake_build(["ydriver"])
+    ok, log, _ = core.lake_build(["drv_c19"])
     if not ok:
         print(log[-3000:])
         return 2
-    d = core.LeanDriver()
+    d = core.LeanDriver("drv_c19")
     r = d.call({"op": "sym_info"})
     d.close()
     assert r.get("ok") and len(r["syms"]) >= 7, r
